@@ -130,6 +130,20 @@ func schedHook(ev string, stackID, mutexID uintptr) {
 	t.lastEv = ev
 }
 
+// schedUserPoint is called by the harness's own closures (equality / validity / presentation policies,
+// Stringer leaves) while they run inside a library call: user code is a scheduling point, so that other
+// threads get to run while one caller is in the middle of a query. Outside an exploration it does nothing.
+func schedUserPoint(name string) {
+	s := activeSched
+	if s == nil || s.aborted.Load() {
+		return
+	}
+	t := s.threads[s.cur]
+	s.observe(t, "closure:"+name)
+	s.res.trace = append(s.res.trace, fmt.Sprintf("T%d %s inside user closure %s", t.id, t.curOp, name))
+	s.yield(t)
+}
+
 func (s *sched) yield(t *thr) {
 	s.yieldCh <- t.id
 	select {
